@@ -18,7 +18,7 @@ PROP = "C05"
 RULE = (
     "sequences of 2-7 features over 1-2 colliding keys with columns and attribute sets from tiny pools (equal / different "
     "columns, third arrivals matching an earlier <key>_n), Parent values naming stored parents with a grandparent; five "
-    "strategies x subsets of force_merge_fields (incl. the rejected start/end); GFF3 importer and GTF importer (id_spec='ID', "
+    "strategies x subsets of force_merge_fields (incl. the rejected start/end); GFF3 importer and GTF importer (id_spec 'ID' or a list / tuple starting with it, "
     "inference off); everything through create_db, or the first m through create_db and the rest through update() (text "
     "path or Feature list; file or :memory: database). Non-trivial = both an equal-columns and a different-columns "
     "collision, or a third arrival on one key. Distinct by hash. (merge-histories) all sequences of up to 3 (quick) / 5 "
@@ -87,7 +87,7 @@ class SeqLeg(object):
                 nv = draw(st.lists(st.sampled_from(["x", "y", "z"]), max_size=2))
                 if nv:
                     attrs.append(["Note", nv])
-                if draw(st.integers(0, 3)) == 0:
+                if draw(st.integers(0, 2)) == 0:
                     attrs.append(["Name", [draw(st.sampled_from(["n1", "n2"]))]])
                 while len(attrs) < 2:
                     attrs.append(["pad", ["1"]])
@@ -98,6 +98,7 @@ class SeqLeg(object):
                 "update_form": draw(st.sampled_from(["path", "features"])),
                 "file_db": draw(st.booleans()),
                 "verbose": draw(st.sampled_from([False, False, True, "debug"])),
+                "id_spec_form": draw(st.sampled_from(["str", "str", "list", "tuple"])),
             }
 
         return case()
@@ -163,7 +164,8 @@ class SeqLeg(object):
         split = case["split"]
         first = pre + recs[:split]
         rest = recs[split:]
-        kw = dict(merge_strategy=strategy, id_spec="ID")
+        # the list / tuple forms name the same key here (every record has an ID); later-listed names are ordinary attributes
+        kw = dict(merge_strategy=strategy, id_spec={"list": ["ID", "Name"], "tuple": ("ID", "Note", "Name")}.get(case.get("id_spec_form"), "ID"))
         if case.get("verbose"):
             kw["verbose"] = case["verbose"]  # reporting only: must not change the outcome
         if force:
